@@ -3,7 +3,7 @@ import json, os, shutil, concurrent.futures as cf
 import vp, record_checks as rc, sched_checks as sc
 from vp import Infra
 
-NAMES = ["plain", "spaces", "suffix", "dots", "short", "glob", "bslash", "stamped"]
+NAMES = ["plain", "spaces", "suffix", "dots", "short", "glob", "bslash", "stamped", "ext", "extdir"]
 
 
 def observe_chunk(d):
